@@ -37,7 +37,7 @@ REQUIRED = [
     ("liquid/utils/chain_map.py", "ReadOnlyChainMap.__getitem__"),
 ]
 
-MIN_COUNTERS = {"macro_calls_judged": 100, "builtin_now_probes": 20, "templates_from_a_caching_loader_with_history": 100}
+MIN_COUNTERS = {"programs_with_overridden_blocks": 100, "macro_calls_judged": 100, "builtin_now_probes": 20, "templates_from_a_caching_loader_with_history": 100}
 NAMES = ["a", "b", "c", "now"]
 
 # ------------------------------------------------------------------ program -> source
@@ -76,6 +76,10 @@ def src_of(ops: list, partials: dict[str, str]) -> str:
             out.append(f"{{% {k} {op[1]} %}}")
         elif k == "if":
             out.append("{% if true %}" + src_of(op[1], partials) + "{% endif %}")
+        elif k == "oblock":
+            out.append("{% block " + op[1] + " %}BASE-DEFAULT{% endblock %}")
+            partials.setdefault("__child_blocks", "")
+            partials["__child_blocks"] += "{% block " + op[1] + " %}" + src_of(op[2], partials) + "{% endblock %}"
         elif k == "macrocall":
             out.append("{% macro " + op[1] + " " + ", ".join(op[2]) + " %}" + src_of(op[4], partials) + "{% endmacro %}")
             out.append("{% call " + op[1] + (" " + ", ".join(f"{n}: {pv(v)}" for n, v in op[3].items()) if op[3] else "") + " %}")
@@ -175,6 +179,8 @@ class RScope:
                 out.append(str(v))
             elif k == "if":
                 out.append(self.run(op[1]))
+            elif k == "oblock":
+                out.append(self.run(op[2]))
             elif k == "macrocall":
                 frame = {n: (self.lookup(v[1:]) if v.startswith("@") else v) for n, v in op[3].items()}
                 for n in op[2]:
@@ -322,6 +328,10 @@ def judge(ctx: core.Ctx, case: dict[str, Any]) -> None:
         src = src_of(case["ops"], partials)
         log: dict[str, int] = {}
         eg = Rec(case["eglobals"], "env_globals", log)
+        if "__child_blocks" in partials:
+            ctx.count("programs_with_overridden_blocks")
+            partials["__base"] = src
+            src = "{% extends '__base' %}" + partials.pop("__child_blocks")
         if case.get("loader_history"):
             # the template comes from a caching loader that was first asked for the same name with other template globals: the second
             # request's globals (possibly none at all) are the ones in effect, the earlier ones are gone
@@ -417,12 +427,17 @@ def classify_scope(case, got: str, exp: str) -> str:
 # ------------------------------------------------------------------ generators
 
 
-def gen_ops(rng, depth: int, pid: list[int]) -> list:
+def gen_ops(rng, depth: int, pid: list[int], blocks: bool = False) -> list:
     ops: list = []
     for _ in range(rng.randint(1, 4)):
         r = rng.random()
         name = rng.choice(NAMES[:3] if rng.random() < 0.9 else NAMES)
-        if r < 0.35:
+        if blocks and r < 0.12:
+            # a block of a base template that a child template overrides: the overriding body stands where the block stands, inside
+            # whatever loops / with blocks the base placed it in, and reads names with the same innermost-binding order
+            pid[0] += 1
+            ops.append(["oblock", f"blk{pid[0]}", [["probe", n] for n in rng.sample(NAMES[:3], rng.randint(1, 3))]])
+        elif r < 0.35:
             ops.append(["probe", name])
         elif r < 0.47:
             ops.append(["assign", name, f"L{rng.randint(1, 9)}"])
@@ -433,10 +448,10 @@ def gen_ops(rng, depth: int, pid: list[int]) -> list:
         elif depth < 3:
             r2 = rng.random()
             if r2 < 0.3:
-                ops.append([rng.choice(["for", "for", "tablerow"]), name if name != "now" else "a", rng.choice(list(ITERS)), gen_ops(rng, depth + 1, pid)])
+                ops.append([rng.choice(["for", "for", "tablerow"]), name if name != "now" else "a", rng.choice(list(ITERS)), gen_ops(rng, depth + 1, pid, blocks)])
             elif r2 < 0.55:
                 bound = {n: (f"W{rng.randint(1, 9)}" if rng.random() < 0.6 else "@" + rng.choice(NAMES[:3])) for n in rng.sample(NAMES[:3], rng.randint(1, 3))}
-                ops.append(["with", bound, gen_ops(rng, depth + 1, pid)])
+                ops.append(["with", bound, gen_ops(rng, depth + 1, pid, blocks)])
             elif r2 < 0.9:
                 pid[0] += 1
                 pname = f"p{pid[0]}"
@@ -446,7 +461,7 @@ def gen_ops(rng, depth: int, pid: list[int]) -> list:
                 kw = {n: (f"K{rng.randint(1, 9)}" if rng.random() < 0.6 else "@" + rng.choice(NAMES[:3])) for n in rng.sample(NAMES[:3], rng.randint(0, 3))}
                 ops.append(["include", pname, bind, kw, gen_ops(rng, depth + 1, pid)])
             elif r2 < 0.95 or depth > 1:
-                ops.append(["if", gen_ops(rng, depth + 1, pid)])
+                ops.append(["if", gen_ops(rng, depth + 1, pid, blocks)])
             else:
                 # a macro defined and called on the spot: its parameters are block variables of its body (an omitted one is undefined, it
                 # does not fall through to an outer binding of the same name), and the body does not see the caller's locals
@@ -464,7 +479,7 @@ def gen_scope(rng) -> dict[str, Any]:
     def layer(tag: str, p: float) -> dict[str, str]:
         return {n: f"{tag}_{n}" for n in NAMES if rng.random() < p}
 
-    ops = gen_ops(rng, 0, [0]) + [["probe", "a"], ["probe", "b"], ["probe", "c"]]
+    ops = gen_ops(rng, 0, [0], blocks=rng.random() < 0.2) + [["probe", "a"], ["probe", "b"], ["probe", "c"]]
     if rng.random() < 0.12:
         return {"kind": "scope", "ops": ops, "args": layer("ARG", 0.3), "matter": {}, "tglobals": layer("TG", 0.4) if rng.random() < 0.6 else {}, "eglobals": layer("EG", 0.3) if rng.random() < 0.5 else {},
                 "async": rng.random() < 0.3, "loader_history": rng.choice(["loaded", "rendered", "explicit-empty"])}
